@@ -113,6 +113,14 @@ func (e *Exec) observe() string {
 		delete(e.calls, id)
 		if call.Kind == "recv" && call.Err == nil {
 			evs = append(evs, fmt.Sprintf("ret:%d:msg:%s:%s", id, vp.Hex(e.toCanon(stripIf(call.Msg.Header, e.rxHdrStrip))), vp.Hex(call.Msg.Body)))
+			// a received message belongs to the application: it may change it.  Scribbling over it makes visible any
+			// other holder of the same buffer (another context's copy, a queued forward, a retained request)
+			for i := range call.Msg.Body {
+				call.Msg.Body[i] = 0xEE
+			}
+			for i := range call.Msg.Header {
+				call.Msg.Header[i] = 0xEE
+			}
 			call.Msg.Free()
 		} else {
 			evs = append(evs, fmt.Sprintf("ret:%d:%s", id, vp.ErrName(call.Err)))
